@@ -6,6 +6,7 @@ from harness import posetlib as PL
 ID = 'C11'
 COQ_IMPORTS = ['FCA.Corr.C11']
 CASE_TYPE = 'c11_case'
+COQ_HEADER = 'Set Printing Width 1000000.\n'   # Coq wraps long result lists; core's pair regex does not survive a wrap
 CHECK = 'c11_check'
 SHOW = 'c11_show'
 SHARD = 150
@@ -73,7 +74,25 @@ def run_impl(case):
         m = case['matrix']
         init = list(case['init'])
         enc = dec = mk_other = None
-        if case.get('level') == 'concept':
+        ops = case['ops']
+        if case.get('level') == 'fromctx':
+            # start state = ConceptLattice.from_context (default = Lindig, CbO, Sofia); the element
+            # order is whatever the construction yields, so it is part of the outcome
+            from fcapy.context import FormalContext
+            from fcapy.lattice import ConceptLattice
+            K = FormalContext(data=[list(r) for r in case['table']])
+            kw = {} if case['algo'] is None else {'algo': case['algo']}
+            p = ConceptLattice.from_context(K, **kw)
+            ids = {tuple(e): k for k, e in enumerate(case['extents'])}
+            objs = {ids.get(tuple(c.extent_i), 900 + i): c for i, c in enumerate(p.elements)}
+            init = [ids.get(tuple(c.extent_i), 900 + i) for i, c in enumerate(p.elements)]
+            if sorted(init) != list(range(len(case['extents']))):
+                ops = []                                  # not the full concept set (e.g. Sofia's limit): no history
+            enc = lambda e: objs[e]                       # noqa
+            dec = lambda o: ids.get(tuple(o.extent_i), 999)   # noqa
+            mk_other = lambda els, oc: ConceptLattice(els)   # noqa
+            leq = None
+        elif case.get('level') == 'concept':
             from fcapy.lattice import ConceptLattice
             objs = _concept_objects(case)
             ids = {o.extent_i: k for k, o in enumerate(objs)}
@@ -94,7 +113,7 @@ def run_impl(case):
             except Exception as e:  # noqa
                 return [PL.out_term(PL._x(e)), '[]', '[]']
         outs = []
-        for o in case['ops']:
+        for o in ops:
             before = PL.snapshot(p)
             r = PL.apply_op(p, o, leq, POSet, enc, dec, mk_other)
             if r[0] == 'x' and PL.snapshot(p) != before:
@@ -102,7 +121,10 @@ def run_impl(case):
             outs.append(r)
         extra = [['top']] if has_ext(case['kind'], True) else []
         extra += [['bot']] if has_ext(case['kind'], False) else []
-        return ['ONone', PL.outs_term(outs), PL.outs_term(PL.run_final(p, leq, POSet, extra, enc, dec))]
+        res = ['ONone', PL.outs_term(outs), PL.outs_term(PL.run_final(p, leq, POSet, extra, enc, dec))]
+        if case.get('level') == 'fromctx':
+            res += [init, ops]
+        return res
     r = guarded(go, timeout_s=30)
     return list(r)
 
@@ -112,13 +134,16 @@ def to_coq(case, out):
     cd = None
     if case.get('cd') and case.get('level') != 'concept':
         cd = sorted(PL.true_children(m, case['init']).items())
+    init, ops = list(case['init']), case['ops']
     if out[0] == 'ok':
-        ctor, steps, fin = out[1]
+        ctor, steps, fin = out[1][:3]
+        if case.get('level') == 'fromctx':
+            init, ops = out[1][3], out[1][4]
     else:
         ctor, steps, fin = PL.out_term(['x', PL.ERR_KINDS.get(out[1], 11)]), '[]', '[]'
     return 'Build_c11_case %s %s %s %s %s %s %s %s %s' % (
-        coq(m), KINDS[case['kind']], coq(list(case['init'])), PL.b(case['cache']), PL.cache_term(cd),
-        PL.sl_ops_term(case['ops']), ctor, steps, fin)
+        coq(m), KINDS[case['kind']], coq(init), PL.b(case['cache']), PL.cache_term(cd),
+        PL.sl_ops_term(ops), ctor, steps, fin)
 
 
 # ------------------------------------------------------------------ generation
@@ -292,18 +317,64 @@ def concept_case(rng, max_concepts, min_concepts=3, dim=4, want_nongraded=False)
                                                              'concepts-large-nongraded')}
 
 
+def fromctx_case(rng, big):
+    """Start from ConceptLattice.from_context (default algorithm = Lindig, CbO or Sofia), then a
+    history of removals and re-insertions (with and without cache filling, which drops the
+    relation caches) and queries; everything is compared with the cache-free meaning on the current
+    concept set, i.e. with the lattice built at once.  Indexes are only used for queries: the
+    element order is the construction's."""
+    base = concept_case(rng, 16, min_concepts=10, dim=6, want_nongraded=rng.random() < 0.5) if big \
+        else concept_case(rng, 9, min_concepts=4, dim=4)
+    m, k = base['matrix'], len(base['matrix'])
+    top, bot = k - 1, 0
+    cur = list(range(k))
+    inner = [x for x in cur if x not in (top, bot)]
+    ops, out = [], []
+    def queries(cnt):
+        return [q for q in sl_queries(rng, 'B', len(cur), cur, k) if q[0] not in ('eq', 'del')][:cnt]
+    for _ in range(rng.randint(2, 5)):
+        present = [x for x in inner if x in cur]
+        r = rng.random()
+        if r < 0.1:
+            ops.append(rng.choice([['rm', top], ['rm', bot]]))           # refused
+        if present and (r < 0.7 or not out):
+            e = rng.choice(present)
+            ops.append(['rm', e])
+            cur.remove(e)
+            out.append(e)
+            ops += queries(rng.randint(0, 2))
+        if out and rng.random() < 0.8:
+            e = out.pop(rng.randrange(len(out)))
+            ops.append(['add', e, rng.random() < 0.5])
+            cur.append(e)
+            ops += queries(rng.randint(1, 3))
+    ops += [['ex', True], ['ex', False], ['top'], ['bot']]
+    perm = list(cur)
+    rng.shuffle(perm)
+    perm.remove(top); perm.remove(bot)
+    ops.append(['eq', [top, bot] + perm, True])
+    return {'matrix': m, 'kind': 'B', 'init': list(range(k)), 'cache': True, 'cd': False, 'ops': ops,
+            'level': 'fromctx', 'algo': rng.choice([None, None, 'CbO', 'Sofia']), 'table': base['table'],
+            'extents': base['extents'], 'intents': base['intents'],
+            'okind': 'from_context-%s' % ('large' if big else 'small')}
+
+
 def generate(rng, tier):
     cases = []
     if tier == 'thorough':
-        n_hist, n_ctor, n_conc, max_ops, max_conc, n_big = 36000, 3000, 5000, 30, 12, 1200
+        n_hist, n_ctor, n_conc, max_ops, max_conc, n_big = 34000, 3000, 5000, 30, 12, 1200
+        n_ctx = 4000
     else:
-        n_hist, n_ctor, n_conc, max_ops, max_conc, n_big = 1400, 150, 260, 12, 8, 50
+        n_hist, n_ctor, n_conc, max_ops, max_conc, n_big = 1300, 150, 240, 12, 8, 40
+        n_ctx = 240
     for _ in range(n_hist):
         cases.append(poset_case(rng, max_ops))
     for _ in range(n_ctor):
         cases.append(ctor_refusal_case(rng))
     for _ in range(n_conc):
         cases.append(concept_case(rng, max_conc))
+    for i in range(n_ctx):        # start states built by from_context, < 10 and >= 10 concepts
+        cases.append(fromctx_case(rng, big=(i % 4 == 3)))
     for i in range(n_big):        # larger lattices: 10-16 concepts, two thirds of them not graded
         cases.append(concept_case(rng, 16, min_concepts=10, dim=6, want_nongraded=(i % 3 != 0)))
     return cases
@@ -323,7 +394,7 @@ def _refusals(case):
 
 
 def nontrivial(case):
-    if case.get('level') == 'concept':
+    if case.get('level') in ('concept', 'fromctx'):
         return len(case['matrix']) >= 4
     acc, ref = _refusals(case)
     return acc >= 1 and ref >= 1
@@ -331,7 +402,9 @@ def nontrivial(case):
 
 def stats(case):
     acc, ref = _refusals(case)
-    return {'class': case['kind'] if case.get('level') != 'concept' else 'ConceptLattice',
+    return {'class': case['kind'] if case.get('level') not in ('concept', 'fromctx') else
+            ('ConceptLattice' if case.get('level') == 'concept' else 'ConceptLattice.from_context(%s)' % case.get('algo')),
+            'has_nofill_readd': any(o[0] == 'add' and not o[2] for o in case['ops']),
             'order': case.get('okind', ''), 'carriers': len(case['matrix']), 'cache': case['cache'],
             'children_dict': bool(case.get('cd')),
             'ctor': 'ok' if ctor_ok(case['matrix'], case['kind'], case['init']) else 'refused',
